@@ -42,6 +42,9 @@ LEX_COLS = ["sonars", "prostrings", "classes", "langid", "numbers", "weights", "
 REQ = {"QLCParser": [], "Wordlist": ["doculect", "concept"],
        "LexStat": ["doculect", "concept", "tokens"],
        "Alignments": ["doculect", "concept", "tokens", "cogid"]}
+META_KEYS = ["filename", "note", "json", "taxa_info"]
+META_VALS = {"filename": ["mydata", "lingpy-data", "x"], "note": ["a note", ["x", "y"]],
+             "json": [{"a": 1, "b": [1, 2]}, {}], "taxa_info": [{"A": "lang a"}, ["A", "B"]]}
 SENTINEL = "(OCons 4999%nat [])"      # a model operation that raises and changes nothing
 
 
@@ -143,7 +146,16 @@ def gen_dict(rng, bare=False):
             else:
                 cells.append(value_for(rng, name))
         rows.append([i, cells])
-    return {"op": "newdict", "hdr": hdr, "rows": rows}
+    st = {"op": "newdict", "hdr": hdr, "rows": rows}
+    # meta entries (string keys) of the caller's dictionary; 'filename' is the one the
+    # constructor looks at.  "front" = inserted before the header key
+    if rng.random() < 0.45:
+        meta = []
+        for key in rng.sample(META_KEYS, rng.choice([1, 1, 2, 3])):
+            meta.append([key, copy.deepcopy(rng.choice(META_VALS[key]))])
+        st["meta"] = meta
+        st["meta_front"] = rng.random() < 0.4
+    return st
 
 
 FN_SINGLE = ["const", "first", "wrap", "str", "len", "failon"]
@@ -494,9 +506,16 @@ def run_hist(case):
                 mops = None
                 tgt = st.get("tgt")
                 if op == "newdict":
-                    d = {0: list(st["hdr"])}
+                    d = {}
+                    meta = st.get("meta", [])
+                    if st.get("meta_front"):
+                        for k, v in meta:
+                            d[k] = copy.deepcopy(v)
+                    d[0] = list(st["hdr"])
                     for i, cells in st["rows"]:
                         d[int(i)] = copy.deepcopy(cells)
+                    for k, v in meta:
+                        d.setdefault(k, copy.deepcopy(v))
                     objs.append(d)
                     mops = ["(ONewDict %s %s)" % (
                         L.zlist([intern.code(n) for n in st["hdr"]]),
@@ -661,6 +680,10 @@ def hist_classify(case, res):
         out.append("op=" + st["op"] + ("/raised" if o["raised"] else ""))
         if st["op"] == "cons":
             out.append("cons=" + st["cls"] + ("/raised" if o["raised"] else ""))
+        if st["op"] == "newdict" and st.get("meta"):
+            out.append("dict_with_meta")
+            if any(k == "filename" for k, _ in st["meta"]):
+                out.append("dict_with_filename_key")
     i = res["info"]
     if i["nested_shared"]:
         out.append("nested_list_cells_shared_between_objects")
